@@ -3,8 +3,11 @@
 # usage: tools/mh_try.sh <patch.diff> <C..> [<C..> ...]   (TIER=quick|thorough)
 set -u
 patch="$(realpath "$1")"; shift
+# the scratch worktree is created on first use (remove it when done: git -C /repo worktree remove --force /tmp/mh/repo; rm -rf /tmp/mh)
+if [ ! -d /tmp/mh/repo/.git ] && [ ! -f /tmp/mh/repo/.git ]; then mkdir -p /tmp/mh; git -C /repo worktree prune; git -C /repo worktree add --detach /tmp/mh/repo HEAD >/dev/null 2>&1 || exit 2; fi
 /verif/tools/mh_sync.sh
 cd /tmp/mh/repo || exit 2
+git checkout -q --detach "$(git -C /repo rev-parse HEAD)" 2>/dev/null
 git reset -q --hard HEAD
 if ! git apply --3way "$patch" 2>/tmp/mh/apply.err && ! git apply "$patch" 2>>/tmp/mh/apply.err; then echo "APPLY-FAILED"; cat /tmp/mh/apply.err; git reset -q --hard HEAD; exit 3; fi
 for p in "$@"; do
